@@ -305,7 +305,7 @@ class SPiecewiseRegressor(Spec):
         cfg = _binner(ch, "reg")
         cfg["local"] = ch.choice("w", ["linreg", "tag", "tree"], "local")
         cfg["n_jobs"] = ch.choice("w", [None, 2, 3], "n_jobs")
-        cfg["verbose"] = ch.weighted("w", [(False, 4), (True, 1)], "verbose")
+        cfg["verbose"] = ch.weighted("w", [(False, 8), (True, 2), ("tqdm", 1)], "verbose")  # 'tqdm' is documented; the module is absent here, fit then raises
         return cfg
 
     frame_ok = True
@@ -327,7 +327,7 @@ class SPiecewiseClassifier(Spec):
         cfg["local"] = ch.choice("w", ["logreg", "tag", "tree", "warm"], "local")
         cfg["n_jobs"] = ch.choice("w", [None, 2, 3], "n_jobs")
         cfg["random_state"] = ch.choice("w", [None, 0, 7], "rs")
-        cfg["verbose"] = ch.weighted("w", [(False, 4), (True, 1)], "verbose")
+        cfg["verbose"] = ch.weighted("w", [(False, 8), (True, 2), ("tqdm", 1)], "verbose")  # 'tqdm' is documented; the module is absent here, fit then raises
         return cfg
 
     frame_ok = True
@@ -540,11 +540,12 @@ class SIntervalRegressor(Spec):
             "alpha": ch.choice("w", [1.0, 0.7, 1.3], "alpha"),
             "n_jobs": ch.choice("w", [None, 2, 3], "n_jobs"),
             "local": ch.choice("w", ["linreg", "tag", "dummy"], "local"),
+            "verbose": ch.weighted("w", [(False, 8), (True, 2), ("tqdm", 1)], "verbose"),
         }
 
     def build(self, cfg):
         local = {"linreg": PLinReg(), "tag": P.TagRegressor(), "dummy": PDummyReg()}[cfg["local"]]
-        return IntervalRegressor(estimator=local, n_estimators=cfg["n_estimators"], alpha=cfg["alpha"], n_jobs=cfg["n_jobs"])
+        return IntervalRegressor(estimator=local, n_estimators=cfg["n_estimators"], alpha=cfg["alpha"], n_jobs=cfg["n_jobs"], verbose=cfg.get("verbose", False))
 
 
 class SQuantileLinearRegression(Spec):
@@ -689,10 +690,17 @@ class SCategoriesToIntegers(Spec):
     weights = False
 
     def draw(self, ch):
-        return {"single": ch.choice("w", [False, True], "single"), "skip_errors": True}
+        return {
+            "single": ch.choice("w", [False, True], "single"),
+            "skip_errors": ch.weighted("w", [(True, 3), (False, 1)], "skip_errors"),
+            # explicit column lists (a frame may lack one of them: fit then
+            # raises, or skips it -- either way the parameter stays as given)
+            "columns": ch.weighted("w", [(None, 3), (("a",), 1), (("a", "b"), 2), (("b", "a"), 1)], "columns"),
+        }
 
     def build(self, cfg):
-        return CategoriesToIntegers(single=cfg["single"], skip_errors=cfg["skip_errors"])
+        cols = cfg.get("columns")
+        return CategoriesToIntegers(columns=None if cols is None else list(cols), single=cfg["single"], skip_errors=cfg["skip_errors"])
 
     def data(self, ch, label="A"):
         return draw_frame(ch, label)
